@@ -6,7 +6,7 @@
    Layer B (go-ds-crdt v0.1.21 set.go / crdt.go as written): `merge` over ALL lists of deltas and ALL delivery
    orders (permutations); the write path of one replica over ALL histories and commit outcomes.
    Layer C (PutHook/DeleteHook -> PinTracker.Track/Untrack): `tracker_call`. *)
-From V Require Import Base.Common Model.C02_Batch Model.C02_Set Proofs.C02_Batch Proofs.C02_Set Proofs.C02_Local.
+From V Require Import Base.Common Model.C02_Batch Model.C02_Set Model.C02_Check Proofs.C02_Batch Proofs.C02_Set Proofs.C02_Local Proofs.C02_Check.
 From Coq Require Import Permutation.
 Open Scope N_scope.
 
@@ -168,6 +168,15 @@ Theorem crdt_local_is_map_refuted :
                value (l_st (lrun es)) k <> aget k (spec_map es).
 Proof. exact (ex_intro _ republish_witness (ex_intro _ 0 republish_stmt)). Qed.
 Print Assumptions crdt_local_is_map_refuted.
+
+(* ------------------------------------------------------------------ tie between the check and the theorems *)
+
+(* the correspondence check replays every observed trace with steps of `bstep` only: the state it compares with the
+   implementation is a reachable state of the machine, so every theorem of layer A applies to it *)
+Theorem h1_replay_is_a_run (c : bcfg) (nofire : bool) (t : list tev) :
+  exists es : list (bev item), r_b (replay c nofire t) = brun c es.
+Proof. exact (replay_reachable c nofire t). Qed.
+Print Assumptions h1_replay_is_a_run.
 
 (* non-vacuity *)
 Example value_guard_inhabited :
